@@ -189,7 +189,7 @@ impl Monitor for C12 {
         vec![("aggregate", tier.pick(8400, 168_000)), ("ties", tier.pick(600, 12_000)), ("structures", tier.pick(30_000, 600_000))]
     }
     fn rule(&self) -> &'static str {
-        "case i -> objective (i mod 7), data-set size from {1,2,3,40,63,64,65,127,128,129,200,257} (i/7 mod 12; the parallel chunk is 64), soft-max output or not, output width 1 or >1, tolerance from {f32::MIN_POSITIVE, 1e-9, log-uniform [1e-12,1e-6], log-uniform [1e-6,0.5]}, pool of 1..16 threads; random network ending in a dense layer (dense/conv/deconv/pool before it). Targets are generated from the network's own predictions so that every component is clearly inside (an exact hit or |t-p| <= tol/2) or clearly outside (>= 2 tol + 0.01) the tolerance and arg-max ties do not occur. Oracle: harness-side aggregation over the library's own predict() and objective loss(): mean loss (f64, bound n*eps), accuracy by the stated rule; predict_batch(xs)[i] must be bit-equal to predict(xs[i]) in input order (also for 0 inputs), predict(x) bit-equal to the last activation of forward(x). ties: soft-max outputs with exactly equal maxima (uniform distribution): the accuracy must equal the frequency of some single class among the targets, whatever the tie-breaking convention. structures: chains of 3..8 layers (dense / spatial / mixed) with 0..2 skip connections and 1..3 loop connections in any arrangement the library accepts (disjoint, nested, overlapping ranges, with and without input skips), all 5 x 5 accumulation pairs: predict bit-equal to the final activation of forward, predict_batch bit-equal to predict of each input (configurations on which both forward and predict panic are counted, not judged). Distinct = distinct (network, objective, size, tolerance) descriptors."
+        "case i -> objective (i mod 7), data-set size from {1,2,3,40,63,64,65,127,128,129,200,257} (i/7 mod 12; the parallel chunk is 64), soft-max output or not, output width 1 or >1, tolerance from {f32::MIN_POSITIVE, 1e-9, log-uniform [1e-12,1e-6], log-uniform [1e-6,0.5]}, pool of 1..16 threads; random network ending in a dense layer (dense/conv/deconv/pool before it). Targets are generated from the network's own predictions so that every component is clearly inside (an exact hit or |t-p| <= tol/2) or clearly outside (>= 2 tol + 0.01) the tolerance and arg-max ties do not occur. Oracle: harness-side aggregation over the library's own predict() and objective loss(): mean loss (f64, bound n*eps), accuracy by the stated rule; predict_batch(xs)[i] must be bit-equal to predict(xs[i]) in input order (also for 0 inputs), predict(x) bit-equal to the last activation of forward(x). Every second case repeats validate() and predict_batch() on the same network with a shorter prefix of the data. ties: soft-max outputs with exactly equal maxima (uniform distribution): the accuracy must equal the frequency of some single class among the targets, whatever the tie-breaking convention. structures: chains of 3..8 layers (dense / spatial / mixed) with 0..2 skip connections and 1..3 loop connections in any arrangement the library accepts (disjoint, nested, overlapping ranges, with and without input skips), all 5 x 5 accumulation pairs: predict bit-equal to the final activation of forward, predict_batch bit-equal to predict of each input (configurations on which both forward and predict panic are counted, not judged). Distinct = distinct (network, objective, size, tolerance) descriptors."
     }
     fn assumptions(&self) -> Vec<&'static str> {
         vec!["boundary semantics (|t-p| == tol, arg-max ties, NaN losses) are unspecified and not generated", "per-sample predict() and loss() are trusted here (they are the subject of C02/C06)"]
@@ -372,6 +372,36 @@ impl Monitor for C12 {
             Ok(v) if v.is_empty() => {}
             Ok(v) => out.viol("aggregate:predict_batch-empty", format!("predict_batch of no inputs returned {} outputs", v.len()), J::Null),
             Err(m) => out.viol("aggregate:predict_batch-empty-panic", format!("predict_batch of no inputs panicked: {}", short(&m, 160)), J::Null),
+        }
+        // a second round on the same network with a shorter prefix of the data (nothing sized or
+        // remembered from the first calls may leak into the second)
+        if n >= 2 && idx % 2 == 0 {
+            let m = if idx % 4 == 0 { rng.range(1, n - 1) } else { n - 1 };
+            let (xm, tm): (Vec<&Tensor>, Vec<&Tensor>) = (xr[..m].to_vec(), tr[..m].to_vec());
+            let ((v2, pb2), _) = in_cached_pool(threads, || (guard(|| net.validate(&xm, &tm, tol)), guard(|| net.predict_batch(&xm))));
+            let ml: f64 = losses[..m].iter().map(|l| *l as f64).sum::<f64>() / m as f64;
+            let mabs: f64 = losses[..m].iter().map(|l| (*l as f64).abs()).sum::<f64>() / m as f64;
+            let ma: f64 = expect_acc[..m].iter().sum::<f64>() / m as f64;
+            match v2 {
+                Err(e) => out.viol("aggregate:second-validate-panic", format!("second validate call ({} of the {} samples) panicked: {}", m, n, short(&e, 160)), detail()),
+                Ok((loss, acc)) => {
+                    out.count("second_validate_calls_on_a_prefix", 1);
+                    if !loss.is_finite() || (loss as f64 - ml).abs() > (m as f64 + 4.0) * 2.0 * EPS32 * mabs + 1e-30 {
+                        out.viol("aggregate:second-validate-loss", format!("validate over the first {} samples right after validate over {}: loss {:e}, mean of the per-sample losses {:e}", m, n, loss, ml), detail());
+                    }
+                    if !acc.is_finite() || (acc as f64 - ma).abs() > (m as f64 + 4.0) * 2.0 * EPS32 + 1e-9 {
+                        out.viol("aggregate:second-validate-accuracy", format!("validate over the first {} samples right after validate over {}: accuracy {:e}, the rule gives {:e}", m, n, acc, ma), detail());
+                    }
+                }
+            }
+            match pb2 {
+                Err(e) => out.viol("aggregate:second-predict_batch-panic", format!("second predict_batch call ({} inputs) panicked: {}", m, short(&e, 160)), detail()),
+                Ok(b) => {
+                    if b.len() != m || (0..m).any(|i| !bits_eq(&flat(&b[i]), &preds[i])) {
+                        out.viol("aggregate:second-predict_batch", format!("predict_batch over the first {} inputs right after predict_batch over {}: {} outputs, not predict of each input in order", m, n, b.len()), detail());
+                    }
+                }
+            }
         }
         match fw {
             Ok(pairs) => {
